@@ -1,9 +1,10 @@
+from threading import RLock
 from typing import Any, TypeVar, cast
 
 import reactivex
 from reactivex import Observable, abc, typing
 from reactivex.disposable import CompositeDisposable
-from reactivex.internal import curry_flip
+from reactivex.internal import curry_flip, synchronized
 
 _T = TypeVar("_T")
 
@@ -17,7 +18,10 @@ def sample_observable(
         at_end = False
         has_value = False
         value: _T = cast(_T, None)
+        # The sampler usually ticks on another thread than the source
+        lock = RLock()
 
+        @synchronized(lock)
         def sample_subscribe(_: Any = None) -> None:
             nonlocal has_value
             if has_value:
@@ -27,22 +31,23 @@ def sample_observable(
             if at_end:
                 observer.on_completed()
 
+        @synchronized(lock)
         def on_next(new_value: _T):
             nonlocal has_value, value
             has_value = True
             value = new_value
 
+        @synchronized(lock)
         def on_completed():
             nonlocal at_end
             at_end = True
 
+        on_error = synchronized(lock)(observer.on_error)
         return CompositeDisposable(
-            source.subscribe(
-                on_next, observer.on_error, on_completed, scheduler=scheduler
-            ),
+            source.subscribe(on_next, on_error, on_completed, scheduler=scheduler),
             sampler.subscribe(
                 sample_subscribe,
-                observer.on_error,
+                on_error,
                 sample_subscribe,
                 scheduler=scheduler,
             ),
